@@ -1,6 +1,7 @@
 import MoqModel.GlueFacts
 import MoqModel.Generated.Glue
 import MoqModel.Gen
+import MoqModel.ResolveShallow
 /-
   C19 — every invocation terminates with output or a diagnostic.
 
@@ -79,5 +80,41 @@ theorem c19_basic_names_nonempty (n : Str) (h : n ≠ []) : (deCapitalise n).isS
   cases n with
   | nil => exact absurd rfl h
   | cons c cs => rfl
+
+/-- fuel only bounds the recursion depth of the import-conflict resolver: a call that returns
+    with some fuel returns the same result with more, so the model's "out of fuel" stands for
+    "the Go code does not return" and for nothing else -/
+theorem c19_fuel_is_a_bound (o : Ord) (fuel : Nat) (r : Registry) (p : PkgRef) (x : Registry × Option Str)
+    (h : addImport o fuel r p = some x) : addImport o (fuel + 1) r p = some x :=
+  addImport_fuel_mono o fuel r p x h
+
+/-- `AddImport` returns in the conflict-free case … -/
+theorem c19_addImport_returns_free (o : Ord) (fuel : Nat) (r : Registry) (p : PkgRef)
+    (hfree : searchIn (o.pk r.imports) (Pkg.qualifier ⟨stripVendorPath p.path, p.name,
+              aliasOf r.aliases (stripVendorPath p.path)⟩) = none) :
+    (addImport o fuel r p).isSome = true := by
+  unfold addImport
+  simp only []
+  split
+  · rfl
+  · split
+    · rfl
+    · simp [hfree]
+
+/-- … and in the ordinary conflict (both level-`k` names free), after climbing `k` levels:
+    `k + 1` units of fuel suffice, for every registry -/
+theorem c19_addImport_returns_shallow (k fuel : Nat) (r : Registry) (p : PkgRef) (c : Pkg)
+    (hc : searchIn r.imports (Pkg.qualifier ⟨stripVendorPath p.path, p.name,
+            aliasOf r.aliases (stripVendorPath p.path)⟩) = some c)
+    (heq : ∀ l, l < k → uniqueName (stripVendorPath p.path) l = uniqueName c.path l)
+    (hd : uniqueName (stripVendorPath p.path) k ≠ uniqueName c.path k)
+    (hfa : ∀ x ∈ r.imports, x.qualifier = uniqueName (stripVendorPath p.path) k → x.path = c.path)
+    (hfb : ∀ x ∈ r.imports, x.qualifier = uniqueName c.path k → x.path = c.path) :
+    (addImport Ord.id (fuel + 1 + k) r p).isSome = true := by
+  by_cases hdst : stripVendorPath p.path = r.moqPkgPath
+  · simp [addImport, hdst]
+  · cases hnew : r.lookup (stripVendorPath p.path) with
+    | some q => simp [addImport, hdst, hnew]
+    | none => rw [addImport_shallow k fuel r p c hdst hnew hc heq hd hfa hfb]; rfl
 
 end Moq
